@@ -9,7 +9,7 @@ Definition tag_code (t : tag) : Z :=
 Definition obs_eff (e : eff) : T :=
   match e with
   | EReject k => Tl [Tn 1; TN k]
-  | EWrite st (ma, mi) cl => Tl [Tn 2; TN st; TN ma; TN mi; Tbool cl]
+  | EWrite st (ma, mi) cl hd => Tl [Tn 2; TN st; TN ma; TN mi; Tbool cl; Tbool hd]
   | EClose => Tl [Tn 3]
   | EDispatch => Tl [Tn 4]
   | ECrash => Tl [Tn 9]
@@ -34,8 +34,8 @@ Definition obs_run (secure : bool) (h : list op) : T := Tl (obs_ops secure empty
 
 (* compact constructors for the generated cases *)
 Definition mkF (h : bool) (e : option perr) (m : bool) : pflags := {| hc := h; perrno := e; mc := m |}.
-Definition mkR (ma mi : N) (host te ka : bool) : reqinfo :=
-  {| rver := (ma, mi); has_host := host; te_chunked := te; keepalive := ka |}.
-Definition mkA (s : res bool) (x : res pflags) (er : res version) (rq : res reqinfo) (cl : res Z)
+Definition mkR (ma mi : N) (hd host te ka : bool) : reqinfo :=
+  {| rver := (ma, mi); is_head := hd; has_host := host; te_chunked := te; keepalive := ka |}.
+Definition mkA (s : res bool) (x : res pflags) (er : res (version * bool)) (rq : res reqinfo) (cl : res Z)
                (p : res pathans) (xr : res unit) (ap : N) : answers :=
   {| a_ssl := s; a_exec := x; a_errreq := er; a_req := rq; a_clen := cl; a_path := p; a_excreq := xr; a_app := ap |}.
